@@ -421,6 +421,8 @@ class Ctx(object):
         self.float_failures = []
         self._lit_cache = {}
         self._label_count = {}
+        self.fps = []
+        self.derived = []           # (var name, function(env) -> value) for validation points
 
     # -- inputs --------------------------------------------------------------
     def var(self, name, lo=None, hi=None, pos=False, nonzero=False):
@@ -460,6 +462,10 @@ class Ctx(object):
         if b is False or (isinstance(b, (bool, np.bool_)) and not b):
             raise Infeasible()
         self.assumptions.append(b)
+
+    def derive(self, name, fn):
+        """validation points: variable `name` is a function of other variables"""
+        self.derived.append((name, fn))
 
     def define_atom(self, name, arg, value):
         """declare fname(arg) := value (re-parametrisation, DESIGN 2.5(4))"""
@@ -572,6 +578,10 @@ class Ctx(object):
 
     def out(self, label, value):
         self.outs.append((label, value))
+
+    def fp(self, label, value):
+        """structure fingerprint: must be identical in the symbolic and the float run"""
+        self.fps.append((label, value))
 
     def note(self, s):
         self.notes.append(s)
